@@ -271,7 +271,7 @@ def check_property(pid, tier, seed):
             if key0 in reported or len(reported) >= 4:
                 continue
             reported.add(key0)
-            if r.code in ("hang", "abort") or len(judge.script_ops(s)) > 150:
+            if r.code in ("hang", "abort") or len(judge.script_ops(s)) > 150 or "count=" in s and any(int(x) > 800 for x in re.findall(r"count=(\d+)", s)):
                 small, r2 = s, r
             else:
                 small = judge.shrink(s, proj, "prop", timeout=timeout, budget=25 if tier == "quick" else 80)
